@@ -375,6 +375,27 @@ def staged_expiry(prop, tier):
     return out
 
 
+def callback_space(tier, prefix):
+    """The caller's own callbacks panic (the by-value weigher on one value, the predicate of
+    invalidate_entries_if on one key, Clone of one value in the concurrent cache), the
+    caller catches the panic and goes on using the cache: every clause still holds."""
+    thorough = tier == "thorough"
+    out = []
+    for kind in ("U", "S"):
+        for cap, w, ex in itertools.product(["none", 2], [0, 1], [dict(), dict(ttl=2, tti=2)]):
+            if kind == "U" and w == 0 and cap == "none" and ex:
+                continue
+            kw = dict(dict(kind=kind, cap=cap, w=w, alpha="callbacks", keys=3, D=7 if thorough else 5, Q=2, A=1 if ex else 0), **ex)
+            if kind == "S":
+                for rg in regimes():
+                    k2 = dict(kw, **rg)
+                    out.append(seqjob(name(prefix + "cb", k2), **k2))
+            else:
+                kw["D"] += 1
+                out.append(seqjob(name(prefix + "cb", kw), **kw))
+    return out
+
+
 def longruns_expiry(prop):
     out = []
     for kind in ("U", "S"):
@@ -394,6 +415,8 @@ def jobs_for(prop, tier):
     j = _jobs_for(prop, tier)
     if prop in ("C03", "C05", "C06"):
         j = j + longruns_expiry(prop)
+    if prop in ("C01", "C03", "C04", "C08", "C10", "C11"):
+        j = j + callback_space(tier, prop.lower())
     if prop in ("C03", "C04", "C10", "C11", "C08"):
         j = j + from_full(prop, tier)
     if prop in ("C01", "C03", "C05", "C06", "C10", "C11", "C16"):
